@@ -430,7 +430,11 @@ PROPS = {
 HOOK_COMMITS = ["1c7f22f"]
 NOT_CLAIMED = {}
 NOTES = ("Driver: ./check <ID> quick|thorough|--replay <file>; exit 0 held / 1 violation / 2 inconclusive. "
-         "Fix commits in /repo: 18e7710 (C16/C13), 2b5696f (C06), 531f665 (C10), 1b87bca (C08); see known_findings.json and DESIGN.md section 6.")
+         "Fix commits in /repo: 18e7710 (C16/C13), 2b5696f (C06), 531f665 (C10), 1b87bca (C08); see known_findings.json and DESIGN.md section 6. "
+         "Every check except C12 also runs one process built for GOARCH=386 (runs on this host; DESIGN.md 10.7). Sensitivity: 200 independently "
+         "seeded changes (seeded/, seeded/RESULTS.md) are all detected by the quick tier of the check of their own property; 36 behaviour-preserving "
+         "changes (benign/, benign/RESULTS.md) raise no alarm. Developer options: VERIF_REPO=<scratch tree> (never writes evidence/), "
+         "VERIF_COVER=1 + covreport.py (statement coverage of go-ipa reached by the generated cases).")
 
 # Every check except C12 (the race detector needs a 64-bit platform) runs ONE additional process built for GOARCH=386: it takes
 # over the deterministic share of one shard (rotating with the seed) and a quarter / a tenth of a shard's drawn cases.
